@@ -37,7 +37,7 @@ def judgeLine (line : String) : String :=
          else if op == "bytes" then judgeBytes
          else throw s!"unknown op {op}")
       | "C10" => judgeC10 op
-      | "C12" => (if op == "hist" then judgeMmapHist else throw s!"unknown op {op}")
+      | "C12" => (if op == "hist" then judgeMmapHist else if op == "srv" then judgeMmapSrv else throw s!"unknown op {op}")
       | "C11" => judgeC11 op
       | "C08" => judgeC08 op
       | "C04" => judgeC04 op
